@@ -412,12 +412,14 @@ def parse_trace(err):
     return tr
 
 
-def execute(sc, mode, k, trace=False):
+def execute(sc, mode, k, trace=False, fail=0):
     """one run of the scenario under vkill from a fresh directory; k == 0: un-killed"""
     wd = _scratch(); rundir = wd + '/run'
     materialise(sc, rundir)
     cmd = [E['vkill'], '--mode', mode, '--kill', str(k)]
-    if k == 0:
+    if fail:
+        cmd = [E['vkill'], '--mode', mode, '--fail', str(fail)]
+    elif k == 0:
         cmd += ['--count-only']
     if trace:
         cmd += ['--trace']
@@ -444,7 +446,7 @@ def execute(sc, mode, k, trace=False):
                     kv['total'] = first.split('=')[1]
                 if first.startswith('status='):
                     kv['status'] = first.split('=')[1]
-                res['status'] = int(kv['status']); res['total'] = int(kv['total'])
+                res['status'] = int(kv['status']); res['total'] = int(kv['total']); res['failed_call'] = int(kv.get('failed_call', 0))
     if res['outcome'] == '?':
         raise RuntimeError('vkill gave no verdict: rc=%s out=%r err=%r' % (p.returncode, p.stdout[-300:], p.stderr[-300:]))
     res['state'], res['meta'] = snapshot(rundir)
@@ -598,6 +600,22 @@ def task_kill(arg):
     else:
         viols, fl = crash_oracle(sc, r['state'])
     return dict(si=si, mode=mode, k=k, rep=rep, outcome=r['outcome'], viols=viols, flags=fl, hash=state_hash(r['state']), listing=listing(r['state']))
+
+
+def task_fail(arg):
+    """one run in which the k-th file-system call, if it writes data, fails with ENOSPC (the run goes on): the operation has failed, so the exit status
+    is not 0, and the user's data is still recoverable"""
+    si, k = arg
+    sc = SCEN[si]
+    r = execute(sc, 'fs', 0, fail=k)
+    if r['outcome'] == 'timeout':
+        return dict(si=si, k=k, injected=True, viols=['hang: no termination within 120 s after a failed write'])
+    if not r.get('failed_call'):
+        return dict(si=si, k=k, injected=False, viols=[])
+    viols, fl = crash_oracle(sc, r['state'])
+    if r['status'] == 0 and not sc.verdict_excluded:
+        viols.append('write-failure-ignored: a data write failed with ENOSPC (call #%d) but the exit status is 0' % k)
+    return dict(si=si, k=k, injected=True, viols=viols)
 
 
 def cleanup():
